@@ -4,7 +4,10 @@
    3. every case is rendered as XML, loaded by the real parsers and decided by the real code (unsigned entrance)
    4. seeded random documents over a larger alphabet; signed fixtures x byte-level alterations / foreign CA / spliced
       signatures through the real S/MIME verification and validate_local_permissions
-   5. every real decision / verification outcome is validated by TLC against the trace specification."""
+   5. slice "forge": TLC enumerates the containers a party without the CA key can assemble from genuine material by
+      up to MaxEdits COOPERATING edits (content, signed attributes, signature value, every field outside the signature);
+      each is built on the real fixture bytes and verified by the real code; seeded: more edits, byte noise, DER byte sweeps
+   6. every real decision / verification outcome is validated by TLC against the trace specification."""
 import fnmatch, glob, json, os, re
 import common
 from common import log, tlc, outdir, ToolError
@@ -15,11 +18,11 @@ FIX = os.path.join(common.ROOT, "fixtures", "access")
 TIERS = {
     "quick": dict(mc=[("MC_AccessControl_q_sig.cfg", 2), ("MC_AccessControl_q_crit.cfg", 8), ("MC_AccessControl_q_rules.cfg", 8),
                       ("MC_AccessControl_q_relay.cfg", 8), ("MC_AccessControl_q_dom.cfg", 8), ("MC_AccessControl_q_grants.cfg", 8),
-                      ("MC_AccessControl_q_gov.cfg", 8)],
+                      ("MC_AccessControl_q_gov.cfg", 8), ("MC_AccessControl_q_forge.cfg", 8)],
                   random=dict(runs=300, events=40)),
     "thorough": dict(mc=[("MC_AccessControl_q_sig.cfg", 2), ("MC_AccessControl_t_crit.cfg", 8), ("MC_AccessControl_t_rules.cfg", 8),
                          ("MC_AccessControl_q_relay.cfg", 8), ("MC_AccessControl_t_dom.cfg", 8), ("MC_AccessControl_t_grants.cfg", 8),
-                         ("MC_AccessControl_q_gov.cfg", 8)],
+                         ("MC_AccessControl_q_gov.cfg", 8), ("MC_AccessControl_t_forge.cfg", 8)],
                      random=dict(runs=15000, events=60)),
 }
 ASSUME = [
@@ -27,6 +30,7 @@ ASSUME = [
     "the decision function is exercised below the signature check (cfg accessor verif_install_unsigned = the steps of validate_local_permissions after verify_signature); partitions reach the code through verif_check_entity because the public check_* methods always pass an empty partition list",
     "left open (every reading accepted): entities without partitions, topics whose governance rule enables only one of read/write access control, relay permission for topics, unprotected access for a subject without any currently valid grant",
     "data tags are not exercised (the public API never passes any); validity windows are far from the wall clock (2001/2002, 2998/2999)",
+    "forged containers: edits are combined up to MaxEdits (quick 2, thorough 3; seeded runs 5) over the edit alphabet of AccessControl!ForgeEdit (12 fields outside the signature, each replaced by 1-6 concrete values per class); digests are taken as collision free; byte noise is not combined with the one-bit edits of the alphabet",
     "signature clause: 5 committed signed fixtures; single-byte alterations (quick: xor 0x01/0x20 at every position of one permissions and one governance fixture; thorough: 8 bit flips + delete/duplicate/overwrite at every position of all fixtures), foreign CA, identity-certificate signer, spliced signatures, truncations; only ECDSA-P256/SHA-256 signatures (the only kind the crate supports)",
 ]
 
@@ -59,13 +63,16 @@ def run(pid, tier, seed, replay=None):
                       extra_vh=["--tier", tier, "--fixtures", FIX])
     if replay is None:
         # measured non-vacuity figures from the traces, appended to the evidence file
-        stats = {"allow": 0, "deny": 0, "verify_accepted": 0, "verify_refused": 0, "validate_ok": 0, "validate_refused": 0, "panics": 0}
+        stats = {"allow": 0, "deny": 0, "verify_accepted": 0, "verify_refused": 0, "validate_ok": 0, "validate_refused": 0, "panics": 0,
+                 "forged_accepted": 0, "forged_refused": 0}
         for f in glob.glob(os.path.join(outdir(pid, "work"), "*", "trace_*.ndjson")):
             with open(f) as fh:
                 for line in fh:
                     if '"ev":"Check"' in line:
                         stats["allow" if '"out":"allow"' in line else "deny"] += 1
                         if '"raw":"panic"' in line: stats["panics"] += 1
+                    elif '"ev":"FVerify"' in line:
+                        stats["forged_accepted" if '"out":"accepted"' in line else "forged_refused"] += 1
                     elif '"ev":"Verify"' in line:
                         stats["verify_accepted" if '"out":"accepted"' in line else "verify_refused"] += 1
                     elif '"ev":"Validate"' in line:
